@@ -335,6 +335,21 @@ if __name__ == '__main__':
     print(us[0]['kinds'])
 
 
+
+def scan_template_static_members():
+    """Out-of-class definitions of static data members of class templates with an initialiser that is not constexpr
+    (template <...> [const] T Class<...>::name{...};): like primary variable templates, their dynamic initialisation is unordered."""
+    inc = os.path.join(os.environ.get('PHQ_ROOT', '/repo'), 'include', 'PhQ')
+    out = []
+    for f in sorted(glob.glob(inc + '/**/*.hpp', recursive=True)):
+        s = strip_comments(open(f, encoding='utf-8').read())
+        for m in re.finditer(r'template\s*<[^;{}()]*?>\s*(?!inline\b)(?!constexpr\b)((?:const\s+)?[\w:<>,\s]+?)\s+((?:\w+::)*\w+<[^;{}()]*?>::(\w+))\s*(\{|=)', s):
+            if 'constexpr' in m.group(1) or 'operator' in m.group(2):
+                continue
+            out.append(m.group(2).replace(' ', ''))
+    return sorted(set(out))
+
+
 def scan_variable_templates():
     """Every namespace-scope variable template (primary, explicit or partial specialisation) defined in the headers, with its
     initialisation kind: 'constant' (constexpr), 'ordered' (explicit specialisation, template <>), 'unordered' (a primary
